@@ -405,14 +405,16 @@ func runC04(r *Run) {
 		roles := make([]string, 3)
 		okShape := true
 		for i, c := range copies {
-			dst, ok1 := c.Common.Args[0].(*ssa.Slice)
-			if !ok1 {
-				okShape = false
-				continue
+			// the destination: the new stack itself (`copy(newStack, …)`, the same as newStack[0:]) or a slice of it
+			var dstBase, dstLow ssa.Value
+			if dst, ok := c.Common.Args[0].(*ssa.Slice); ok {
+				dstBase, dstLow = dst.X, dst.Low
+			} else {
+				dstBase = c.Common.Args[0]
 			}
 			if base == nil {
-				base = dst.X
-			} else if dst.X != base {
+				base = dstBase
+			} else if dstBase != base {
 				okShape = false
 			}
 			src := c.Common.Args[1]
@@ -420,9 +422,9 @@ func runC04(r *Run) {
 			case *ssa.Slice:
 				fromStack := dependsOn(s.X, func(v ssa.Value) bool { return loadOfField(v, "App.stack") }) != nil
 				switch {
-				case fromStack && s.Low == nil && s.High != nil && dst.Low == nil:
+				case fromStack && s.Low == nil && s.High != nil && dstLow == nil:
 					roles[i] = "prefix"
-				case fromStack && s.Low != nil && s.High == nil && dst.Low != nil:
+				case fromStack && s.Low != nil && s.High == nil && dstLow != nil:
 					roles[i] = "suffix"
 				default:
 					roles[i] = "?"
@@ -430,7 +432,7 @@ func runC04(r *Run) {
 			default:
 				// the clones slice: a make([]*Route, len(sub stack)) filled from copyRoute/addPrefixToRoute
 				isMake := dependsOn(src, func(v ssa.Value) bool { _, ok := v.(*ssa.MakeSlice); return ok }) != nil
-				if _, direct := src.(*ssa.MakeSlice); (direct || isMake) && dst.Low != nil && dst.High != nil {
+				if _, direct := src.(*ssa.MakeSlice); (direct || isMake) && dstLow != nil {
 					roles[i] = "clones"
 				} else {
 					roles[i] = "?"
